@@ -494,3 +494,237 @@ def c11_cli(case, impl):
     elif re.search(rb"(?m)^procedure ", data.replace(b"\r", b"\n")):
         return "-D still writes procedure headers"
     return None
+
+
+# --------------------------------------------------------------------------- C10
+
+def src_dims(text):
+    """source DIM entries: BASIC09 identifier -> list of bounds (None for scalars)"""
+    out = {}
+    order = []
+    for raw in re.split(r"[\r\n]+", text):
+        body = src_blank(re.sub(r"^\s*\d+", "", raw))
+        for m in re.finditer(r"(?<![A-Z])DIM *([^:]*)", body):
+            for item in re.finditer(r"([A-Z][A-Z0-9]*)(\$?) *(?:\(([^)]*)\))?", m.group(1)):
+                name, dollar, dims = item.group(1), item.group(2), item.group(3)
+                ident = name[:2] + dollar
+                if dims is not None:
+                    bounds = []
+                    try:
+                        for d in dims.split(","):
+                            d = d.replace(" ", "")
+                            bounds.append(int(d[2:], 16) if d.upper().startswith("&H") else int(d))
+                    except ValueError:
+                        continue          # not a DIM statement after all (e.g. text inside another statement)
+                    ident = "arr_" + ident
+                    out.setdefault(ident, []).append(bounds)
+                else:
+                    out.setdefault(ident, []).append(None)
+                order.append(ident)
+    return out
+
+
+def out_decls(lines):
+    """[(identifier, dims tuple or None, size or None, line index)] for every DIM in the output"""
+    decls = []
+    for k, line in enumerate(lines):
+        _, rest = T.line_label(line)
+        for st in T.split_statements(T.code_tokens(rest)):
+            if not st or st[0][0] != "id" or st[0][1].upper() != "DIM":
+                continue
+            body = st[1:]
+            size = None
+            typ = None
+            if ("op", ":") in body:
+                c = body.index(("op", ":"))
+                ttoks = body[c + 1:]
+                body = body[:c]
+                typ = "".join(t[1] for t in ttoks)
+                m = re.match(r"(?i)STRING\[(\d+)\]", typ)
+                if m:
+                    size = int(m.group(1))
+            for item in T.split_args(body):
+                if not item or item[0][0] != "id":
+                    continue
+                dims = None
+                if len(item) > 1 and item[1] == ("op", "("):
+                    dims = tuple(int(float(t[1])) if t[0] == "num" else int(t[1][1:], 16)
+                                 for t in item[2:-1] if t[0] in ("num", "hex"))
+                decls.append((item[0][1], dims, size, k, typ))
+    return decls
+
+
+def c10(case, impl):
+    out = out_text(impl)
+    if out is None or src_comment_closes_early(case["text"]):
+        return None
+    lines = program_lines(case, out)
+    decls = out_decls(lines)
+    names = [d[0] for d in decls]
+    for n in names:
+        if names.count(n) > 1:
+            return f"identifier {n} is declared {names.count(n)} times"
+    sdims = src_dims(case["text"])
+    first_use = {}
+    used_dims = {}
+    for k, line in enumerate(lines):
+        _, rest = T.line_label(line)
+        toks = T.code_tokens(rest)
+        is_dim_line = [st for st in T.split_statements(toks) if st and st[0][0] == "id" and st[0][1].upper() == "DIM"]
+        for i, (kk, t) in enumerate(toks):
+            if kk == "id" and t.startswith("arr_") and not is_dim_line:
+                first_use.setdefault(t, k)
+    declared = {d[0]: d for d in decls}
+    for arr, k in first_use.items():
+        if arr not in declared:
+            return f"array {arr} is used but never declared"
+        d = declared[arr]
+        if d[3] > k:
+            return f"array {arr} is declared after its first use"
+        want = sdims.get(arr)
+        if want and len(want) == 1 and want[0] is not None:
+            exp = tuple(b + 1 for b in want[0])
+            if d[1] != exp:
+                return f"array {arr} declared with {d[1]}, source bound plus one is {exp}"
+        elif not want and d[1] != (11,):
+            return f"undimensioned array {arr} declared with {d[1]} instead of (11)"
+    st = case["opts"]["storage"]
+    if st != 32:
+        cfg = {}
+        for key, size in case["opts"]["sizes"]:
+            cfg[key if key.endswith("$") else "arr_" + key[:-3] + "$"] = size
+        strings = set()
+        for line in lines:
+            _, rest = T.line_label(line)
+            for kk, t in T.code_tokens(rest):
+                if kk == "id" and t.endswith("$") and re.fullmatch(r"(arr_)?[A-Z][A-Z0-9]?\$|tmp_\d+\$", t):
+                    strings.add(t)
+        for s_ in sorted(strings):
+            if s_ not in declared:
+                return f"string {s_} appears but has no declaration although the default size is {st}"
+            want = cfg[s_] if (s_ in cfg and s_ in sdims) else st
+            if declared[s_][2] != want:
+                return f"string {s_} declared with size {declared[s_][2]}, requested {want}"
+    return None
+
+
+def strip_addr(s):
+    """remove every `ADDR( … )` (balanced parentheses) from a line"""
+    out, i = [], 0
+    while i < len(s):
+        if s.startswith("ADDR(", i):
+            depth, j = 0, i + 4
+            while j < len(s):
+                if s[j] == "(":
+                    depth += 1
+                elif s[j] == ")":
+                    depth -= 1
+                    if depth == 0:
+                        break
+                j += 1
+            i = j + 1
+            out.append(" 0 ")
+            continue
+        out.append(s[i])
+        i += 1
+    return "".join(out)
+
+
+def c10_classify(case, impl, why):
+    text = case["text"]
+    m = re.search(r"(?:array|string|identifier) (\S+)", why)
+    ident = m.group(1) if m else ""
+    if ident == "joy0y" and "declared 2 times" in why:
+        return "joystk-prologue-duplicate"
+    if "declared 2 times" in why or "declared 3 times" in why:
+        sd = src_dims(text)
+        if ident in sd and len(sd[ident]) > 1:
+            return "re-dim-in-source"
+    out = out_text(impl) or ""
+    lines = program_lines(case, out)
+    # does the identifier occur anywhere outside READ / INPUT statements (and their wrappers)?
+    def only_read_input(idn):
+        for line in lines:
+            _, rest = T.line_label(line)
+            for stt in T.split_statements(T.code_tokens(rest)):
+                if any(t == ("id", idn) for t in stt) and not (stt and stt[0][0] == "id" and stt[0][1].upper() in ("READ", "INPUT", "DIM")):
+                    return False
+        return True
+    def only_in_addr(idn):
+        flat = " ".join(T.line_label(l)[1] for l in lines)
+        stripped = strip_addr(flat)
+        return re.search(r"(?<![\w$])" + re.escape(idn) + r"(?![\w$])", stripped) is None
+    if ("never declared" in why or "has no declaration" in why):
+        if only_in_addr(ident):
+            return "varptr-argument-not-visited"
+        if only_read_input(ident):
+            return "read-input-only-target"
+        # occurrences inside ADDR(...) and READ/INPUT only
+        flat_lines = [strip_addr(l) for l in lines]
+        saved, lines[:] = list(lines), flat_lines
+        try:
+            if only_read_input(ident):
+                return "read-input-only-target"
+        finally:
+            lines[:] = saved
+    if "declared with size None" in why and ident.startswith("arr_") and ident not in src_dims(text):
+        return "implicit-string-array-unsized"
+    if "declared after its first use" in why and ident in src_dims(text):
+        return "dim-after-use-in-source"
+    return None
+
+
+# --------------------------------------------------------------------------- C07
+
+import b09parse as BP  # noqa: E402
+
+
+def c07(case, impl):
+    out = out_text(impl)
+    if out is None:
+        return None
+    lines = program_lines(case, out)
+    for k, line in enumerate(lines):
+        if "<Node" in line or "<RegexNode" in line or " object at 0x" in line:
+            return f"an internal object leaked into line {k}: {line.strip()[:70]}"
+    bad = BP.check_program(lines)
+    if bad:
+        k, why = bad
+        return f"line {k} does not parse as BASIC09: {why} | {lines[k].strip()[:400]}"
+    for k, line in enumerate(lines):
+        for kk, t in T.code_tokens(T.line_label(line)[1]):
+            if kk == "id" and t in ("inf", "nan"):
+                return f"non-finite literal {t} in line {k}: {line.strip()[:70]}"
+    return None
+
+
+def c07_classify(case, impl, why):
+    text = case["text"]
+    if "comment" in why and src_comment_closes_early(text):
+        return "comment-text-closes-comment"
+    if "text after the end of a comment" in why or "comment inside a statement" in why:
+        return "comment-text-closes-comment" if src_comment_closes_early(text) else None
+    if "NEXT without a variable" in why:
+        return "bare-next-without-open-for"
+    if "non-finite literal" in why:
+        return "literal-overflows-to-inf"
+    line = why.split("|", 1)[1] if "|" in why else ""
+    if re.search(r"\(\s*RUN ", line) or re.search(r", RUN ", line):
+        return "hoisted-call-captured-by-default-colour"
+    if "operand missing" in why or "empty argument list" in why or "empty expression" in why or "bad argument list" in why:
+        # which construct lost its operand?
+        if re.match(r"\s*(\d+ )?\s*(IF|EXITIF) ", line) or "EXITIF" in line or re.search(r"\bIF\b.*\bTHEN$", line):
+            return "if-else-condition-drops-hoisted-call"
+        if re.search(r"\b(READ|INPUT)\b", line):
+            return "read-input-subscript-not-visited"
+        if "ADDR(" in line:
+            return "varptr-argument-not-visited"
+        return None
+    return None
+
+
+def c07_tie(case, impl):
+    """`Props.C07.skel` (the block-keyword skeleton the balance theorem is about) describes what
+    `Model.Emit` writes for this program's AST (answered by the driver in the suite run)"""
+    sk = (case.get("aux") or {}).get("skel", "ok same")
+    return None if sk == "ok same" else f"skeleton differs from emitted block keywords: {sk}"
